@@ -15,12 +15,19 @@ Full statement (for every configuration `c`, every literal `lit` of `c` — plai
 groupedDecimal, optionally negative — with at most 15 significant digits):
     `digitalValue 15 tab c.sep lit.text 1 = ok d` with `d` denoting exactly `lit.value`, and
     `digitResolution … lit.text` = the canonical rendering (the culture's decimal mark, no grouping mark).
-What is proved here for **all** inputs: the integer literals (`digital_exact`, `digital_exact_neg`: any number of
-digits up to the precision, any configuration, with or without sign) — the exact `Decimal` result, not only its
-value.  The grouped / decimal / grouped-decimal shapes are proved on the closed instances below for each of the ten
-regenerated configurations (`number_literal`, `percent_literal`, `format_canonical`: kernel evaluation of the model
-on the regenerated separators, so a changed separator, long-format entry or flag breaks them) and tied to the
-implementation for all magnitudes by the unit and pipeline correspondence of `harness/corr/c03.py`.
+What is proved here for **all** inputs (any culture of the regenerated table, any magnitude below 10^15):
+* `digital_exact`, `digital_exact_neg`: plain integers — the exact `Decimal` result, not only its value;
+* `digital_exact_literal` (+ `digital_exact_grouped`, `_decimal`, `_grouped_decimal`): every well-formed literal of the four
+  shapes, either sign, written with the marks the culture's parser reads, has exactly the literal's sign and value;
+* `format_canonical_general`, `format_canonical_reads_back`, `number_literal_general`, `percent_literal_general`: the
+  resolution string reads back as the literal's value with the culture's decimal mark, no grouping mark, no exponent —
+  for values of at least 10^-6; `number_literal_zero`: the integer zero (`0`, `000`, `-0`), which that guard excludes;
+* witnesses outside the guards: `zero_fraction_witness` (`0.0` -> `0E-55`), `format_canonical` (values below 10^-6 print
+  in exponent form), `single_mark_nonstandard_witness`, `progressive_rounding_witness`.
+`number_literal`, `percent_literal`, `format_canonical` are closed instances per regenerated configuration (kernel
+evaluation: a changed separator, long-format entry or flag breaks them).  All of it is tied to the implementation for all
+magnitudes by the unit and pipeline correspondence of `harness/corr/c03.py`.  Extraction (that the literal IS found as one
+entity): `RTV.Props.C03Extract*`.
 Beyond the precision the code rounds after every digit (`progressive_rounding_witness`).
 -/
 namespace RTV.Num
@@ -281,8 +288,9 @@ most 15 digits written with the culture's own marks (standard grouping in the si
 multi-decimal-separator cultures) whose value is at least 10^-6: the resolution string of the number parser reads
 back — with the culture's decimal mark — as exactly the literal's sign and value `numer / 10^scale`, it has no trailing
 fraction zeros, and it consists of digits, an optional `-` and that decimal mark only (no exponent, no grouping mark).
-Outside the guard: a value below 10^-6 is printed in exponent form (`format_canonical`), and a zero written with
-fraction digits prints as `0E-55` (`zero_fraction_witness`). -/
+Outside the guard `hge` (which also excludes the value 0, since `10 ^ scale ≤ 0` never holds): a non-zero value below
+10^-6 is printed in exponent form (`format_canonical`); the INTEGER zero is `number_literal_zero` below; a zero written
+with fraction digits prints as `0E-55` (`zero_fraction_witness`), so no statement of this form holds for it. -/
 theorem number_literal_general (tab : DigitTab) (ht : tab.Ascii) (c : Culture) (hc : c ∈ cultures) (l : Literal)
     (hw : l.WellFormed) (hstd : c.sep.multiDec = true → l.groups.length = 2 → l.frac = none → l.Grouped3)
     (hb : l.numer < 10 ^ 15) (hge : 10 ^ l.scale ≤ l.numer * 10 ^ 6) :
@@ -305,6 +313,27 @@ theorem number_literal_general (tab : DigitTab) (ht : tab.Ascii) (c : Culture) (
         _ = l.numer * 10 ^ (-r.exp).toNat * 10 ^ k := by rw [hval]
         _ = l.numer * 10 ^ k * 10 ^ (-r.exp).toNat := by rw [Nat.mul_right_comm]
     exact Nat.eq_of_mul_eq_mul_right (Dec.pow10_pos _) h1
+
+theorem zero_formats : ∀ c ∈ cultures, Dec.format c.longFormat ⟨false, 0, 0⟩ = [48] ∧
+    Dec.format c.longFormat ⟨true, 0, 0⟩ = [45, 48] := by decide +kernel
+
+/-- **the literal 0** (excluded by the guard `hge` of `number_literal_general`): in every regenerated culture a run of
+zeros (`0`, `000`) resolves to `0` and with a minus sign to `-0` (the real parser keeps the sign of `Decimal('-0')`;
+numerically the number written). -/
+theorem number_literal_zero (tab : DigitTab) (ht : tab.Ascii) (c : Culture) (hc : c ∈ cultures) (ds : List Nat)
+    (hd : ∀ d ∈ ds, d < 10) (h0 : natOfDigits ds = 0) :
+    digitResolution 15 tab c.sep c.longFormat (digitChars ds) = .ok [48] ∧
+    digitResolution 15 tab c.sep c.longFormat (45 :: digitChars ds) = .ok [45, 48] := by
+  have h1 := digital_exact tab ht c.sep (cultures_sane c hc) ds hd (by rw [h0]; decide)
+  have h2 := digital_exact_neg tab ht c.sep (cultures_sane c hc) ds hd (by rw [h0]; decide)
+  rw [h0] at h1 h2
+  obtain ⟨f1, f2⟩ := zero_formats c hc
+  constructor
+  · simp [digitResolution, h1, bind, Except.bind, pure, Except.pure, f1]
+  · simp [digitResolution, h2, bind, Except.bind, pure, Except.pure, f2]
+
+example : digitResolution 15 asciiDigits en.sep en.longFormat [48, 48, 48] = .ok [48] :=
+  (number_literal_zero asciiDigits asciiDigits_ascii en (List.Mem.head _) [0, 0, 0] (by decide) (by decide)).1
 
 /-- outside the guard of `number_literal_general`: `0.0` resolves to `0E-55` (numerically 0; the zero product
 `Decimal(0.1) * 0` carries the exponent −55 of the exact binary expansion into the sum) -/
